@@ -153,7 +153,7 @@ def unit_spread_columns(twin=False):
     t = text_of(SP, loops[0])
     r.add("component_read_from_that_text_and_stored_under_its_own_name", DISCHARGED if "temp_comp.read(char_string,&temp_solution)" in t and "initial_data_ptr->Get_comps()[temp_comp.Get_description()]=temp_comp" in t else FAILED, "syntactic", 0, "", kind="structural")
     h = (text_of(SP, loops[0]["inner"][0]).rstrip(";"), text_of(SP, loops[0]["inner"][2]), text_of(SP, loops[0]["inner"][3]))
-    r.add("every_heading_column_is_visited", DISCHARGED if h == ("inti=0", "i<heading->count", "i++") else FAILED, "syntactic", 0, repr(h), kind="structural")
+    r.add("every_heading_column_is_visited", DISCHARGED if h[:2] == ("inti=0", "i<heading->count") and h[2] in ("i++", "++i", "i+=1", "i=i+1") else FAILED, "syntactic", 0, repr(h), kind="structural")
     r.assumptions += ["std::string assignment / append are opaque: the pieces are the arguments of the calls in order", "cxxISolutionComp::read parses `name value units ...` exactly as a SOLUTION line (not under this contract)",
                       "two text anchors (read + store statement, loop header)"]
     return r
